@@ -9,13 +9,7 @@ import (
 
 func init() { propChecks["C17"] = checkC17 }
 
-var c17Cmds = [][]string{
-	{"reg"}, {"reg", "--use-old-reg-reporter"}, {"reg", "--internal-template-name", "left-aligned"}, {"reg", "-s", "cal"}, {"reg", "-s", "cal", "-g"}, {"reg", "-f", "r"},
-	{"bal"}, {"bal", "-c"}, {"bal", "--collapse-last"}, {"bal", "-s", "cal"},
-	{"csv", "log"}, {"csv", "database"}, {"csv", "database-resolved"}, {"print"},
-	{"report", "totals"}, {"report", "quantity"}, {"report", "unresolved"}, {"report", "element-total", "cal"},
-	{"summary", "2021/01/24"}, {"stats"}, {"lint", "log.yaml"}, {"lint", "bad.yaml"},
-}
+var c17Cmds = append(shapeArgs(func(s cmdShape) bool { return true }), []string{"lint", "bad.yaml"}, []string{"bal", "-s", "cal", "--collapse-last"})
 
 func c17Inputs() []map[string]string {
 	small := map[string]string{"food.yaml": "r1:\n  cal: 2\n", "log.yaml": "2021/01/24:\n  r1: 1\n  u: 2\n", "bad.yaml": "x:\n  y:1\n"}
@@ -127,6 +121,11 @@ func checkC17(w *Worker) {
 			cmd := c17Cmds[ci]
 			cname := strings.Join(cmd, " ")
 			writeFiles(inputs[1])
+			probe := w.runBin(appCase{Args: append([]string{"--no-color"}, cmd...), Files: inputs[1]}, "")
+			if len(probe.Stdout) == 0 {
+				x.Case("skip: the command writes nothing to stdout here", false)
+				return
+			}
 			c := exec.Command(w.Bin, append([]string{"--no-color"}, cmd...)...)
 			c.Dir = theApp.dir
 			c.Env = []string{"HOME=" + theApp.dir, "TZ=UTC"}
